@@ -61,7 +61,7 @@ def candidate_joint_actions(tier, seed):
         [("take", ["o1", "o3"]), None, ("drop", ["o3", "o2"])],
     ]
     out += curated
-    n = 25 if tier == "quick" else 400
+    n = 90 if tier == "quick" else 800
     while len(out) < len(curated) + n:
         k = rng.choice([1, 2, 2, 3]) if tier == "quick" else rng.choice([1, 2, 2, 3, 3])
         agents = rng.sample(AGENTS, k)
